@@ -323,11 +323,11 @@ func wireMatch(w *World, wc *wireCtx, r *Report) {
 			// what does this function emit with the filtered pairs?
 			var usesKey, usesVal bool
 			for _, st := range wc.m.sitesOf(fn) {
-				d, _ := wc.m.siteDeps(st, nil)
-				if d&sPK != 0 {
+				pf := pairFieldsEmitted(st.val)
+				if pf["Key"] {
 					usesKey = true
 				}
-				if d&sPV != 0 {
+				if pf["Value"] {
 					usesVal = true
 				}
 			}
@@ -364,11 +364,11 @@ func wireMatch(w *World, wc *wireCtx, r *Report) {
 		}
 		var usesKey, usesVal, inPairLoop bool
 		for _, st := range wc.m.sitesOf(fn) {
-			d, _ := wc.m.siteDeps(st, nil)
-			if d&sPK != 0 {
+			pf := pairFieldsEmitted(st.val)
+			if pf["Key"] {
 				usesKey = true
 			}
-			if d&sPV != 0 {
+			if pf["Value"] {
 				usesVal = true
 				inPairLoop = true
 			}
@@ -453,6 +453,78 @@ func dedupKeys(w *World, fn *ssa.Function, depth int, seen map[*ssa.Function]boo
 			}
 		}
 	})
+	return out
+}
+
+// pairFieldsEmitted: the MatchPair fields whose value becomes part of the emitted text v (followed through formatting calls and
+// string helpers inside the function; what a helper reads for its own bookkeeping does not count).
+func pairFieldsEmitted(v ssa.Value) map[string]bool {
+	out := map[string]bool{}
+	seen := map[ssa.Value]bool{}
+	var walk func(v ssa.Value, d int)
+	walk = func(v ssa.Value, d int) {
+		if v == nil || seen[v] || d > 40 {
+			return
+		}
+		seen[v] = true
+		switch x := v.(type) {
+		case *ssa.Field:
+			if tn, f, _, _ := fieldOf(x); tn == "MatchPair" {
+				out[f] = true
+				return
+			}
+			walk(x.X, d+1)
+		case *ssa.UnOp:
+			if fa, ok := x.X.(*ssa.FieldAddr); ok {
+				if tn, f, _, _ := fieldOf(fa); tn == "MatchPair" {
+					out[f] = true
+					return
+				}
+			}
+			walk(x.X, d+1)
+		case *ssa.Phi:
+			for _, e := range x.Edges {
+				walk(e, d+1)
+			}
+		case *ssa.BinOp:
+			walk(x.X, d+1)
+			walk(x.Y, d+1)
+		case *ssa.MakeInterface:
+			walk(x.X, d+1)
+		case *ssa.ChangeType:
+			walk(x.X, d+1)
+		case *ssa.Convert:
+			walk(x.X, d+1)
+		case *ssa.Slice:
+			walk(x.X, d+1)
+		case *ssa.Extract:
+			walk(x.Tuple, d+1)
+		case *ssa.Call:
+			for _, a := range x.Call.Args {
+				walk(a, d+1)
+			}
+		case *ssa.Alloc:
+			// varargs array / local: what is stored into it
+			if x.Referrers() == nil {
+				return
+			}
+			for _, ref := range *x.Referrers() {
+				switch y := ref.(type) {
+				case *ssa.Store:
+					if y.Addr == ssa.Value(x) {
+						walk(y.Val, d+1)
+					}
+				case *ssa.IndexAddr:
+					for _, r2 := range *y.Referrers() {
+						if st, ok := r2.(*ssa.Store); ok && st.Addr == ssa.Value(y) {
+							walk(st.Val, d+1)
+						}
+					}
+				}
+			}
+		}
+	}
+	walk(v, 0)
 	return out
 }
 
